@@ -106,4 +106,59 @@ theorem C09_two_digit_year (pd : PrefDates) (nowT t r : DT) (hv : t.valid) (hnv 
       subst h
       exact ⟨rfl, rfl, rfl, rfl, rfl, rfl, rfl, (by intro hh; cases hh), (by intro hh; cases hh), fun _ => rfl⟩
 
+
+/-! ## dates without a year -/
+
+/-- the year decision for a date whose year was not written (month name alone, day and month): the reference year, moved by one year when
+    the preference asks for the other side of the reference time -/
+def noYearFix (pd : PrefDates) (now : Int) (t : DT) : Except PyErr DT :=
+  if now < t.micros then (if isPast pd then t.replaceYear (t.y - 1) else .ok t)
+  else (if isFuture pd then t.replaceYear (t.y + 1) else .ok t)
+
+theorem correctTimeFrame_noYear (st : PSettings) (p : PS) (t r : DT)
+    (hw : p.weekdaySet = false) (hm : truthy p.month = true) (hy : truthy p.year = false) (hty : p.tokYear = none) (htime : p.tokTime = none)
+    (hfix : noYearFix st.preferDates (nowCmp st) t = .ok r) :
+    correctTimeFrame st p t = .ok r := by
+  unfold noYearFix at hfix
+  unfold correctTimeFrame
+  simp [hw, hm, hy, hty, htime, tokTruthy, bind, Except.bind, pure, Except.pure]
+  split at hfix <;> rename_i hlt <;> simp only [hlt, if_true, if_false] <;> split at hfix <;> rename_i hp <;> simp only [hp, if_true, if_false] <;> (try rw [hfix]) <;> (try simp_all)
+
+/-- **C09_no_year**: a date without a year is first given the reference year; 'past' then yields a moment not after the reference time,
+    'future' one not before it, 'current_period' keeps the reference year; month, day and time of day are those of the string. -/
+theorem C09_no_year (pd : PrefDates) (nowT t r : DT) (hv : t.valid) (hnv : nowT.valid) (hy : t.y = nowT.y)
+    (h : noYearFix pd nowT.micros t = .ok r) :
+    r.mo = t.mo ∧ r.d = t.d ∧ r.h = t.h ∧ r.mi = t.mi ∧ r.s = t.s ∧ r.us = t.us ∧
+    (pd = .past → r.micros ≤ nowT.micros) ∧ (pd = .future → nowT.micros ≤ r.micros) ∧ (pd = .currentPeriod → r.y = nowT.y) := by
+  unfold noYearFix at h
+  by_cases hlt : nowT.micros < t.micros
+  · simp only [hlt, if_true] at h
+    cases pd with
+    | past =>
+      simp [isPast] at h
+      obtain ⟨f1, f2, f3, f4, f5, f6, f7, fv⟩ := replaceYear_fields t r _ h
+      refine ⟨f2, f3, f4, f5, f6, f7, fun _ => ?_, (by intro hh; cases hh), (by intro hh; cases hh)⟩
+      have h1 : 1 ≤ r.y := fv.1
+      exact Int.le_of_lt (micros_lt_of_year_lt r nowT fv hnv (by omega))
+    | future =>
+      simp [isPast] at h; subst h
+      exact ⟨rfl, rfl, rfl, rfl, rfl, rfl, (by intro hh; cases hh), fun _ => Int.le_of_lt hlt, (by intro hh; cases hh)⟩
+    | currentPeriod =>
+      simp [isPast] at h; subst h
+      exact ⟨rfl, rfl, rfl, rfl, rfl, rfl, (by intro hh; cases hh), (by intro hh; cases hh), fun _ => hy⟩
+  · simp only [hlt, if_false] at h
+    have hle : t.micros ≤ nowT.micros := by omega
+    cases pd with
+    | past =>
+      simp [isFuture] at h; subst h
+      exact ⟨rfl, rfl, rfl, rfl, rfl, rfl, fun _ => hle, (by intro hh; cases hh), (by intro hh; cases hh)⟩
+    | future =>
+      simp [isFuture] at h
+      obtain ⟨f1, f2, f3, f4, f5, f6, f7, fv⟩ := replaceYear_fields t r _ h
+      refine ⟨f2, f3, f4, f5, f6, f7, (by intro hh; cases hh), fun _ => ?_, (by intro hh; cases hh)⟩
+      exact Int.le_of_lt (micros_lt_of_year_lt nowT r hnv fv (by omega))
+    | currentPeriod =>
+      simp [isFuture] at h; subst h
+      exact ⟨rfl, rfl, rfl, rfl, rfl, rfl, (by intro hh; cases hh), (by intro hh; cases hh), fun _ => hy⟩
+
 end DP
